@@ -1731,11 +1731,9 @@ func ExecSelect(query *Query, current []any) ([]any, error) {
 		switch current := current.(type) {
 		case []any:
 			{
-				rs, err := ExecSelect(query, current)
-				if err != nil {
-					return nil, err
-				}
-				copy = append(copy, rs)
+				// the result of an inner array of a multi-dimensional FROM: exec() has
+				// already run the whole query, select list included, inside it
+				copy = append(copy, current)
 			}
 		case Map:
 			{
